@@ -219,7 +219,7 @@ Lemma InvA_other s e : InvA s ->
   match e with ETick | ERun _ _ => False | _ => True end -> InvA (do_event sc ln s e).
 Proof.
   intros [H1 H2 H3 H4 H5 H6 H7] He.
-  destruct e as [sid|sid i|h|h h'|h|p ap lneg|clear|t0| |seen e]; try contradiction; unfold do_event.
+  destruct e as [sid|sid i|h|h h'|h|p ap lneg|clear|t0| |seen e|]; try contradiction; unfold do_event.
   - split; assumption.
   - split; assumption.
   - destruct (tpc s); split; assumption.
@@ -230,6 +230,7 @@ Proof.
   - dstate s. cbn in H1, H2, H3. cbn [tpc]. destruct tp; try (split; assumption).
     destruct clear; split; breakA; fin.
   - dstate s. cbn in H1, H2, H3. cbn [tpc]. destruct tp; try (split; assumption).
+  - split; assumption.
 Qed.
 
 Lemma InvA_step s e : InvA s -> InvA (do_event sc ln s e).
@@ -489,7 +490,7 @@ Lemma InvC_other s e : InvC s ->
   match e with ETick | ERun _ _ => False | _ => True end -> InvC (do_event sc ln s e).
 Proof.
   intros [C1 C2 C3] He.
-  destruct e as [sid|sid i|h|h h'|h|p ap lneg|clear|t0| |seen e]; try contradiction; unfold do_event.
+  destruct e as [sid|sid i|h|h h'|h|p ap lneg|clear|t0| |seen e|]; try contradiction; unfold do_event.
   - split; try assumption. cbn. intros H. etransitivity; [exact (C2 H)|apply npub_reserve].
   - split; try assumption. cbn. intros H. etransitivity; [exact (C2 H)|apply npub_publish].
   - pose proof (Build_InvC s C1 C2 C3) as HC. clear C1 C2 C3. destruct (tpc s); try exact HC. destruct HC; split; assumption.
@@ -505,6 +506,7 @@ Proof.
     destruct (tpc s) eqn:Et; try exact HC. destruct HC as [C1 C2 C3].
     split; unfold inv_gsnap; cbn; try reflexivity.
     + intros H1 H2 _. apply C3; auto. rewrite Et; exact I.
+  - split; assumption.
 Qed.
 
 Lemma InvAC_step s e : InvA s /\ InvC s -> InvA (do_event sc ln s e) /\ InvC (do_event sc ln s e).
@@ -1279,7 +1281,7 @@ Lemma InvW_other s e : InvA s -> InvW s ->
   match e with ETick | ERun _ _ => False | _ => True end -> InvW (do_event sc ln s e).
 Proof.
   intros [_ A2 A3 _ _ _ _] HW He.
-  destruct e as [sid|sid i|h|h h'|h|p ap lneg|clear|t0| |seen e]; try contradiction; unfold do_event.
+  destruct e as [sid|sid i|h|h h'|h|p ap lneg|clear|t0| |seen e|]; try contradiction; unfold do_event.
   - apply InvW_ext; [|exact HW]. intros a. rewrite stream_of_set_stream.
     destruct (N.eqb_spec a sid) as [->|]; [apply ext_reserve|apply ext_refl].
   - apply InvW_ext; [|exact HW]. intros a. rewrite stream_of_set_stream.
@@ -1301,6 +1303,7 @@ Proof.
     + rewrite (Hs _ A3). assumption.
   - destruct (tpc s) eqn:Et; try exact HW. destruct HW as [W1 W2 W3 W4].
     split; unfold staleb, al_cond in *; cbn [lock tpc wk canceled snap streams upd_tpc upd_notify upd_ghost]; rewrite ?Et in *; try assumption.
+  - exact HW.
 Qed.
 
 Lemma InvAW_step s e : InvA s /\ InvW s -> InvA (do_event sc ln s e) /\ InvW (do_event sc ln s e).
